@@ -51,6 +51,19 @@ for cid in sorted(set(re.findall(r"BEGIN:ASBUILT (C\d\d)", d))):
                      % (e["tier"], cv.get("states", 0), cv.get("transitions", 0), cv.get("traces_validated_against_impl", 0), cv.get("exhaustive"), e["wall_s"]))
     d = put(d, "ASBUILT " + cid, body)
 
+# behaviour-preserving changes (false-alarm test)
+import glob
+brow = []
+for mf in sorted(glob.glob(os.path.join(HERE, "benign", "*", "meta.json"))):
+    m = json.load(open(mf))
+    desc = ""
+    mt = os.path.join(os.path.dirname(mf).replace("-thorough", ""), "summary.txt")
+    if os.path.exists(mt):
+        desc = open(mt).read().strip().replace("\n", " ").replace("|", "\\|")
+    ck = "; ".join("%s %s: %s" % (c, v["tier"], "silent" if v["silent"] else "**ALARM** exit=%s" % v["exit"]) for c, v in m["checks"].items())
+    brow.append("| %s | %s | %d | %s | %s |" % (m["name"], ", ".join(m["files_changed"]), m.get("lines_changed", 0), desc, ck))
+benign = "| change | files | +/- lines | what it does | our checks |\n|---|---|---|---|---|\n" + "\n".join(brow)
+d = put(d, "BENIGN", benign)
 d = put(d, "FINDINGS", findings)
 d = put(d, "SEEDS", seeds)
 open(os.path.join(HERE, "DESIGN.md"), "w").write(d)
